@@ -169,6 +169,11 @@ class Checker:
             self.epoch_ids.extend(-2 - i if i < -1 else i for i in ids)
             self.epoch_ambiguous = True
             return
+        # the rows delivered are the rows of those samples in the CALLER's data (KernelRIM batches kernel rows by design)
+        if self.cfg["family"] != "KernelRIM" and np.ndim(Xb) == 2 and np.ndim(self.X) == 2 and np.shape(Xb)[1] == np.shape(self.X)[1] \
+                and max(ids, default=0) < len(self.X):
+            if not np.array_equal(np.asarray(self.X, dtype=np.float64)[ids], np.asarray(Xb, dtype=np.float64)):
+                res.violate("C10:partition:rows_differ_from_the_data", {"ids": ids})
         eff = self.n if (self.bs is None or self.categorical) else self.bs
         if b > eff:
             res.violate("C10:batch_too_large", {"size": b, "batch_size": self.bs})
